@@ -1,15 +1,23 @@
 /* getrandom() seam: makes std's RandomState (HashMap iteration order) a pure function of
- * VERIF_HASH_SEED in a single-threaded worker. See DESIGN.md 3.2. */
+ * VERIF_HASH_SEED. The simulator sets VERIF_HASH_SEED to a value derived from (VERIF_SEED, history
+ * index, salt) and then runs the history on a fresh thread, whose first HashMap draws its keys here.
+ * The call counter restarts whenever the seed string changes, so the keys depend on the history
+ * only, not on the worker process or on what ran before. See DESIGN.md 3.2. */
 #define _GNU_SOURCE
 #include <stddef.h>
 #include <stdint.h>
 #include <stdlib.h>
+#include <string.h>
 #include <sys/types.h>
 static uint64_t ctr = 0;
+static char last[64] = "";
 static uint64_t sm(uint64_t *s){ uint64_t z=(*s+=0x9e3779b97f4a7c15ULL); z=(z^(z>>30))*0xbf58476d1ce4e5b9ULL; z=(z^(z>>27))*0x94d049bb133111ebULL; return z^(z>>31);}
 ssize_t getrandom(void *buf, size_t len, unsigned int flags){
   (void)flags;
-  const char *e = getenv("VERIF_HASH_SEED"); uint64_t s = e ? strtoull(e,0,10) : 0; s += (ctr++)*0x1234567ULL;
+  const char *e = getenv("VERIF_HASH_SEED");
+  if (!e) e = "0";
+  if (strncmp(e, last, sizeof(last)-1) != 0) { strncpy(last, e, sizeof(last)-1); last[sizeof(last)-1]=0; ctr = 0; }
+  uint64_t s = strtoull(e,0,10); s += (ctr++)*0x1234567ULL;
   unsigned char *b = buf; for(size_t i=0;i<len;i++){ if(i%8==0) { uint64_t v=sm(&s); for(int j=0;j<8&&i+j<len;j++) b[i+j]=(v>>(8*j))&0xff; } }
   return (ssize_t)len;
 }
